@@ -46,23 +46,31 @@ func (s *fcSink) OnPrunedNode(ctx context.Context, ref forkchoice.NodeRef, canon
 }
 
 type fcHarness struct {
-	b         *fw.B
-	cat       fcCat
-	fc        forkchoice.Forkchoice
-	graph     *proto.ProtoArray
-	m         *fcmodel.Model
-	sink      *fcSink
-	trace     []string
-	roots     []common.Root // every root ever used (known and unknown)
-	dead      bool          // stop this history (violation found / panic)
-	lastWords bool          // the final query battery after a foreign-category divergence is running or done
-	pruned    bool
-	nv        int
+	b     *fw.B
+	cat   fcCat
+	fc    forkchoice.Forkchoice
+	graph *proto.ProtoArray
+	m     *fcmodel.Model
+	sink  *fcSink
+	// crossCat: while non-empty, divergences of other categories are reported under this history's own category with this prefix
+	crossCat string
+	// retainedOnly: the query battery asks only about roots that are alive in the model
+	retainedOnly bool
+	trace        []string
+	roots        []common.Root // every root ever used (known and unknown)
+	dead         bool          // stop this history (violation found / panic)
+	lastWords    bool          // the final query battery after a foreign-category divergence is running or done
+	pruned       bool
+	nv           int
 	// taint: a known-finding class this history falls into (affects signatures), "" if none
 	taint string
 }
 
 func (h *fcHarness) viol(cat fcCat, sig, what string) {
+	if cat != h.cat && h.crossCat != "" {
+		// an observation made for this property's own sake (e.g. the head right after a prune, for C10's "keeps the head")
+		cat, sig = h.cat, h.crossCat+sig
+	}
 	if cat == h.cat {
 		if h.taint != "" {
 			sig = sig + "@" + h.taint
@@ -89,8 +97,8 @@ func (h *fcHarness) guard(cat fcCat, name string, f func()) bool {
 	if p != nil {
 		if cat == h.cat || true {
 			// a panic is a violation for whichever property's history triggered it through its own API category
-			if cat == h.cat {
-				sig := name + "/panic"
+			if cat == h.cat || h.crossCat != "" {
+				sig := h.crossCat + name + "/panic"
 				if h.taint != "" {
 					sig += "@" + h.taint
 				}
@@ -202,7 +210,19 @@ func (h *fcHarness) queryBattery(full bool) {
 			roots = append(roots, r)
 		}
 	}
+	if h.retainedOnly {
+		roots, seen = nil, map[common.Root]bool{}
+		for _, a := range alive {
+			if !seen[a.Root] {
+				seen[a.Root] = true
+				roots = append(roots, a.Root)
+			}
+		}
+	}
 	nr := len(roots)
+	if nr == 0 {
+		return
+	}
 	pick := func() common.Root { return roots[h.b.Rng.IntN(nr)] }
 	nq := 6
 	if full {
@@ -751,6 +771,21 @@ func (h *fcHarness) doUpdate(nVals int, mkBalances func(int) []common.Gwei, spe 
 	got := h.sink.calls[before:]
 	if err != nil && sinkFailed {
 		b.Inc("sink_failures_injected")
+		// Between the failed prune and its retry "the nodes that were reported successfully are pruned, the remainder is left for a next call":
+		// every retained node must answer as after the complete prune. Judged when the new anchor is a block node (then no left-over node
+		// shares a root with a retained one, so questions about retained roots cannot legitimately touch a left-over).
+		if an := h.m.Get(common.NodeRef{Root: fin.Root, Slot: h.m.StartSlot(fin.Epoch)}); an != nil && an.IsBlock() && len(got) > 0 && h.cat != catHead {
+			h.retainedOnly = true
+			if h.cat == catUpdate {
+				h.crossCat = "between-failed-prune-and-retry/"
+			}
+			h.queryBattery(true)
+			h.retainedOnly, h.crossCat = false, ""
+			b.Inc("query_batteries_between_a_failed_prune_and_its_retry")
+			if h.dead {
+				return
+			}
+		}
 		// part-way failure: what was reported must be a subset of the expected set, each once; then retry with a healthy sink
 		h.sink.failAt = 0
 		var rerr error
@@ -816,6 +851,15 @@ func (h *fcHarness) doUpdate(nVals int, mkBalances func(int) []common.Gwei, spe 
 			}
 			return
 		}
+	}
+	// "every retained node answers all queries as before ... and the head stays inside the finalized subtree": asked right after the
+	// prune, before any other operation can repair what the prune left behind
+	if h.cat == catUpdate && len(pruned) > 0 && !h.dead {
+		h.crossCat = "after-prune/"
+		h.headBattery()
+		h.queryBattery(false)
+		h.crossCat = ""
+		b.Inc("head_and_queries_right_after_a_prune")
 	}
 }
 
